@@ -83,9 +83,15 @@ PROPS["C04"] = dict(T(16000, 40, 800000, 900),
     note=NOTE + " The harness' reference encoder/decoder (sim/harness/frames.go) is written independently of the codecs. Payload values are generated input; what simulation decides is the fragmentation/blocking/stream-position half.",
     rule="Scenario: codec configuration, payload sizes/carriers, feed pieces and read fragmentation from the tape.")
 
+PROPS["C08"] = dict(T(16000, 40, 800000, 900), level="fault_enumeration",
+    text="One decoder configuration per run; a peer feeds a byte stream in tape-chosen pieces - valid frames cut at a tape-chosen point (frame boundary, inside a header, right after a header, inside a body), random bytes, or valid frames with one mutated header (maximal / just-over-maximum / zero / sign-bit length fields, over-long varints, missing delimiter) - and then ends the stream (EOF, reset, or a timeout followed by EOF) under whole / byte-wise / random read fragmentation. A strict sink below the decoder reads every delivered frame to its end, raising read errors like the shipped message codecs do. Oracle: every frame delivered as complete is, in order, one the harness' reference decoder also finds in the bytes actually received and respects the maximum/fixed size; deliveries do not continue after the stream ended; exceptions are never runtime faults; at quiescence the channel is closed.",
+    note=NOTE + " 'Complete' is judged by a sink that reads each lazy frame reader to its end; a frame whose reader reports an error is not counted as delivered.",
+    technique="deterministic simulation with fault injection: seeded stream corruption, stream end points (crash points) and read fragmentation against a reference decoder",
+    rule="Scenario: decoder configuration x stream construction x cut point x end kind x fragmentation, all from the tape.")
+
 NOT_APPLICABLE = {
     "C03": "Pipeline order and routing are pure functions of the build program and the event: the handler list is immutable after build and traversed by whichever goroutine delivers the event; no schedule, clock, fault or I/O behaviour enters. Simulation would only be relabelled input generation (DESIGN.md section 3, C03).",
     "C19": "pool.Pool adds no concurrency, time or I/O of its own: shard choice is arithmetic on sizes, mutual exclusion is entirely sync.Pool's, which the simulator has to replace by a stub, so simulated concurrent use would exercise the stub and not the repository (DESIGN.md section 3, C19).",
 }
-for _p in ["C08", "C15", "C16"]:
+for _p in ["C15", "C16"]:
     NOT_APPLICABLE.setdefault(_p, "check under construction in this session (planned as applicable, DESIGN.md section 3); not claimed until it runs clean")
